@@ -11,7 +11,19 @@
    merge of a and b that keeps both orders (every element of l goes to
    exactly one side); [square n m]; [cell m i j] — m[i][j] as an option;
    [transpose]; [reduce_log]; from C11_Model.v: [subseq], [leaves], [has_bad]
-   (C11_Proofs.v), [uniq_ref]. *)
+   (C11_Proofs.v), [uniq_ref].
+   Go's int is 64 bits wide: [max_int64], [min_int64], [wrap64], [abs64]
+   (Abs(MinInt) = MinInt, used by the unrepaired Drop only); Chunk's [i+size] and Drop's
+   [-len(slice)], [len(slice)+n] wrap in the model as they do in the code, and [chunk],
+   [drop] return [res] ([Panic] = a Go panic).  The theorems about them state
+   their domain (an int [size] / [n], a length that is an int) as hypotheses.
+   Added by the session-3 audit (second half of the file): [range_loop],
+   [down_loop] — the two loop forms with their own index arithmetic;
+   [indexed l] — the (index, element) pairs; [for_each_cb] … — the iterators
+   with an arbitrary stateful callback; [drop_prefix_while] — the textbook
+   drop-while; [reverse_str_via dec enc] — ReverseStr on the string;
+   [chunk_spec_ref], [drop_ref], [transpose_ref], [round_trip_ref],
+   [flatten_ref] — the references the property checker uses. *)
 
 From Gogu Require Import Base C11_Model C11_Proofs C12_Model C12_Proofs.
 From Coq Require Import Permutation.
@@ -22,12 +34,17 @@ Notation dec_eq A := (forall x y : A, {x = y} + {x <> y}).
 (* ===== Chunk(s, n) concatenates back to s; every chunk has length n except a
          shorter, non-empty last one; a size <= 0 panics ===== *)
 
+(* Domain: [size] is a Go int (<= max_int64; the model's i+size wraps like Go's) and
+   len(s) <= 2^62 — true of every slice with elements of non-zero size, and the
+   loop over a longer slice of zero-size elements does not terminate in practice. *)
 Theorem C12_chunk_spec : forall A (l : list A) size,
+  size <= max_int64 -> 2 * Z.of_nat (length l) <= max_int64 ->
   chunk l size = if size <=? 0 then Panic else Ok (chunk_ref (length l) (Z.to_nat size) l).
-Proof. intros. apply chunk_spec. Qed.
+Proof. intros. now apply chunk_spec. Qed.
 Print Assumptions C12_chunk_spec.
 
-Theorem C12_chunk_concat_lengths : forall A (l : list A) size, 1 <= size ->
+Theorem C12_chunk_concat_lengths : forall A (l : list A) size,
+  1 <= size <= max_int64 -> 2 * Z.of_nat (length l) <= max_int64 ->
   exists cs, chunk l size = Ok cs /\
     concat cs = l /\
     (l = [] -> cs = []) /\
@@ -36,8 +53,8 @@ Theorem C12_chunk_concat_lengths : forall A (l : list A) size, 1 <= size ->
         Forall (fun c => Z.of_nat (length c) = size) full /\
         1 <= Z.of_nat (length last_chunk) <= size).
 Proof.
-  intros A l size Hs. eexists. split.
-  - rewrite chunk_spec. replace (size <=? 0) with false by (symmetry; apply Z.leb_gt; lia). reflexivity.
+  intros A l size Hs Hlen. eexists. split.
+  - rewrite chunk_spec by (auto; lia). replace (size <=? 0) with false by (symmetry; apply Z.leb_gt; lia). reflexivity.
   - split; [apply chunk_ref_concat; lia|]. split.
     + intros ->. reflexivity.
     + intros Hne. destruct (chunk_ref_shape (Z.to_nat size) ltac:(lia) (length l) l (le_n _) Hne)
@@ -49,7 +66,7 @@ Print Assumptions C12_chunk_concat_lengths.
 
 Theorem C12_chunk_panics : forall A (l : list A) size, size <= 0 -> chunk l size = Panic.
 Proof.
-  intros A l size H. rewrite chunk_spec.
+  intros A l size H. unfold chunk.
   now replace (size <=? 0) with true by (symmetry; apply Z.leb_le; lia).
 Qed.
 Print Assumptions C12_chunk_panics.
@@ -192,28 +209,61 @@ Print Assumptions C12_merge_concat.
 (* ===== Drop removes exactly |n| elements from the front (n > 0) or the back
          (n < 0) — all of them when |n| >= len ===== *)
 
-Theorem C12_drop_spec : forall A (l : list A) n,
-  (0 <= n -> drop l n = skipn (Z.to_nat n) l) /\
-  (n <= 0 -> drop l n = firstn (length l - Z.to_nat (- n)) l).
-Proof. intros. split; [apply drop_front | apply drop_back]. Qed.
+(* For EVERY count n (every int, math.MinInt included — and indeed every integer); the
+   only domain hypothesis is that len(s) is a Go int.  The model is Drop after the repair
+   0f1558a; [-len(slice)] and [len(slice)+n] carry the 64-bit wrap and the out-of-range
+   slice bound is [Panic] in the model: [= Ok …] says neither happens. *)
+Theorem C12_drop_spec : forall A (l : list A) n, Z.of_nat (length l) <= max_int64 ->
+  (0 <= n -> drop l n = Ok (skipn (Z.to_nat n) l)) /\
+  (n <= 0 -> drop l n = Ok (firstn (length l - Z.to_nat (- n)) l)).
+Proof. intros A l n Hl. split; intros Hn; [now apply drop_front | now apply drop_back]. Qed.
 Print Assumptions C12_drop_spec.
 
 Theorem C12_drop_removes : forall A (l : list A) n,
-  exists removed,
+  Z.of_nat (length l) <= max_int64 ->
+  exists kept removed,
+    drop l n = Ok kept /\
     length removed = Nat.min (Z.to_nat (Z.abs n)) (length l) /\
-    (0 <= n -> l = removed ++ drop l n) /\
-    (n <= 0 -> l = drop l n ++ removed).
+    (0 <= n -> l = removed ++ kept) /\
+    (n <= 0 -> l = kept ++ removed).
 Proof.
-  intros A l n. destruct (Z_le_gt_dec 0 n) as [Hn|Hn].
-  - exists (firstn (Z.to_nat n) l). rewrite firstn_length.
+  intros A l n Hl. destruct (Z_le_gt_dec 0 n) as [Hn|Hn].
+  - exists (skipn (Z.to_nat n) l), (firstn (Z.to_nat n) l). rewrite firstn_length.
+    split; [now apply drop_front|].
     split; [now replace (Z.abs n) with n by lia|]. split.
-    + intros _. rewrite drop_front by lia. symmetry. apply firstn_skipn.
-    + intros Hn'. assert (n = 0) as -> by lia. rewrite drop_front by lia. cbn. now rewrite app_nil_r.
-  - exists (skipn (length l - Z.to_nat (- n)) l). rewrite skipn_length.
+    + intros _. symmetry. apply firstn_skipn.
+    + intros Hn'. assert (n = 0) as -> by lia. cbn. now rewrite app_nil_r.
+  - exists (firstn (length l - Z.to_nat (- n)) l), (skipn (length l - Z.to_nat (- n)) l).
+    rewrite skipn_length. split; [apply drop_back; lia|].
     split; [lia|]. split; [lia|].
-    intros _. rewrite drop_back by lia. symmetry. apply firstn_skipn.
+    intros _. symmetry. apply firstn_skipn.
 Qed.
 Print Assumptions C12_drop_removes.
+
+(* math.MinInt in particular: everything is dropped, no panic *)
+Theorem C12_drop_min_int : forall A (l : list A),
+  Z.of_nat (length l) <= max_int64 -> drop l min_int64 = Ok [] /\ drop l max_int64 = Ok [].
+Proof.
+  intros A l Hl. unfold max_int64 in Hl. split.
+  - rewrite drop_back by (unfold min_int64, max_int64; lia). unfold min_int64.
+    now replace (length l - Z.to_nat (- -9223372036854775808))%nat with 0%nat by lia.
+  - rewrite drop_front by (unfold max_int64; lia). f_equal. apply skipn_all2. unfold max_int64. lia.
+Qed.
+Print Assumptions C12_drop_min_int.
+
+(* ABOUT THE SHIPPED, UNREPAIRED CODE ONLY ([drop_unrepaired] = Drop before commit 0f1558a; the
+   model [drop] above is the repaired function): Abs(math.MinInt) wraps to math.MinInt, which
+   passes the test Abs(n) < len(slice); the bound len(slice)-Abs(n) then wraps to a negative
+   number: Drop(s, math.MinInt) panicked for EVERY slice where the specification drops everything *)
+Theorem C12_drop_min_int_unrepaired_refuted :
+  (forall A (l : list A), Z.of_nat (length l) <= max_int64 -> drop_unrepaired l min_int64 = Panic) /\
+  (exists (l : list Z) n, min_int64 <= n <= max_int64 /\
+     drop_unrepaired l n = Panic /\ drop_ref l n = [] /\ drop l n = Ok []).
+Proof.
+  split; [intros; now apply drop_unrepaired_min_int|].
+  exists [1; 2; 3], min_int64. split; [unfold min_int64, max_int64; lia|]. repeat split; reflexivity.
+Qed.
+Print Assumptions C12_drop_min_int_unrepaired_refuted.
 
 (* ===== Reverse and ReverseStr (on the rune sequence) reverse, hence are involutions ===== *)
 
@@ -264,7 +314,7 @@ Print Assumptions C12_reduce_visit_log.
 Example C12_examples :
   chunk [1; 2; 3; 4; 5] 2 = Ok [[1; 2]; [3; 4]; [5]] /\ chunk [1; 2; 3; 4] 2 = Ok [[1; 2]; [3; 4]] /\
   chunk [1; 2] 5 = Ok [[1; 2]] /\ chunk [1] 0 = Panic /\
-  drop [1; 2; 3] 1 = [2; 3] /\ drop [1; 2; 3] (-1) = [1; 2] /\ drop [1; 2; 3] 3 = [] /\ drop [1; 2; 3] (-7) = [] /\
+  drop [1; 2; 3] 1 = Ok [2; 3] /\ drop [1; 2; 3] (-1) = Ok [1; 2] /\ drop [1; 2; 3] 3 = Ok [] /\ drop [1; 2; 3] (-7) = Ok [] /\
   drop_while (fun x => x <? 2) [1; 3; 1; 4] = [3; 4] /\
   drop_right_while (fun x => x <? 2) [1; 3; 1; 4] = [4; 3] /\
   reject (fun x => x <? 2) [1; 3; 1; 4] = Fin [3; 4] /\
@@ -281,3 +331,223 @@ Proof.
   - intros [_ H]. inversion H as [|? ? _ H']; subst. inversion H' as [|? ? E _]; subst. discriminate.
   - apply il_left, il_right, il_left, il_right, il_nil.
 Qed.
+
+(* ================= added by the session-3 audit ================= *)
+
+(* ===== Chunk: the number of chunks is ceil(len / size) — in particular none for the empty slice ===== *)
+
+Theorem C12_chunk_count : forall A (l : list A) size,
+  1 <= size <= max_int64 -> 2 * Z.of_nat (length l) <= max_int64 ->
+  exists cs, chunk l size = Ok cs /\
+    Z.of_nat (length cs) = (Z.of_nat (length l) + size - 1) / size /\
+    (cs = [] <-> l = []) /\ ~ In [] cs.
+Proof.
+  intros A l size Hs Hlen. eexists. split.
+  - rewrite chunk_spec by (auto; lia). replace (size <=? 0) with false by (symmetry; apply Z.leb_gt; lia). reflexivity.
+  - assert (Hn : (1 <= Z.to_nat size)%nat) by lia.
+    split; [|split].
+    + rewrite (chunk_count l (Z.to_nat size) Hn). rewrite Nat2Z.inj_div.
+      f_equal; lia.
+    + split.
+      * intros E. destruct l as [|x l']; [reflexivity|].
+        destruct (chunk_ref_shape (Z.to_nat size) Hn (length (x :: l')) (x :: l') (le_n _) ltac:(discriminate))
+          as (full & lc & E' & _). rewrite E' in E. now destruct full.
+      * intros ->. apply chunk_ref_nil.
+    + intros Hin. destruct l as [|x l']; [now rewrite chunk_ref_nil in Hin|].
+      destruct (chunk_ref_shape (Z.to_nat size) Hn (length (x :: l')) (x :: l') (le_n _) ltac:(discriminate))
+        as (full & lc & E' & Hf & Hl). rewrite E' in Hin. apply in_app_or in Hin as [Hin|[Elc|[]]].
+      * rewrite Forall_forall in Hf. specialize (Hf [] Hin). cbn in Hf. lia.
+      * subst lc. cbn in Hl. lia.
+Qed.
+Print Assumptions C12_chunk_count.
+
+(* ===== DropWhile / DropRightWhile AS IMPLEMENTED are filters: they drop every
+   element satisfying the predicate, not only the leading (trailing) run.
+   [drop_prefix_while] is the textbook drop-while; the code's result is what
+   the textbook one gives after the remaining matching elements are removed
+   as well, and the two coincide exactly when no kept element is followed by a
+   matching one.  (The clause of C12 — a conserving split into the part the
+   predicate dictates — is the filter reading, which is what is proved above.) ===== *)
+
+Theorem C12_drop_while_drops_every_match : forall A (p : A -> bool) (l : list A),
+  drop_while p l = filter (fun x => negb (p x)) (drop_prefix_while p l) /\
+  subseq (drop_while p l) (drop_prefix_while p l) /\
+  (drop_while p l = drop_prefix_while p l <-> Forall (fun x => p x = false) (drop_prefix_while p l)) /\
+  (forall x, In x (drop_while p l) -> p x = false).
+Proof.
+  intros A p l. destruct (drop_while_vs_prefix p l) as (H1 & H2 & H3).
+  split; [exact H1|]. split; [exact H2|]. split; [exact H3|].
+  intros x. rewrite drop_while_spec, filter_In. intros [_ H]. now apply negb_true_iff.
+Qed.
+Print Assumptions C12_drop_while_drops_every_match.
+
+Example C12_drop_while_is_not_the_textbook_one :
+  let p := fun x => x <? 2 in
+  drop_while p [1; 3; 1; 4] = [3; 4] /\ drop_prefix_while p [1; 3; 1; 4] = [3; 1; 4] /\
+  drop_right_while p [1; 3; 1; 4; 0] = [4; 3] /\
+  drop_while p [1; 0; 3; 4] = drop_prefix_while p [1; 0; 3; 4].
+Proof. repeat split; reflexivity. Qed.
+
+(* ===== the two loop forms, with their index arithmetic: a [range] loop visits
+   the indices 0, 1, …, len-1 — each once, in this order, never out of range,
+   the fuel suffices — and the downward loop visits len-1, …, 0; for EVERY
+   loop body (a state transformer that sees the index and the element) ===== *)
+
+Theorem C12_loop_forms : forall A St (body : St -> nat -> A -> St) (l : list A) (st : St),
+  range_loop body (length l) l 0 st =
+    Fin (fold_left (fun s iv => body s (fst iv) (snd iv)) (indexed l) st) /\
+  down_loop body (length l) l st =
+    Fin (fold_left (fun s iv => body s (fst iv) (snd iv)) (rev (indexed l)) st) /\
+  map fst (indexed l) = seq 0 (length l) /\ map snd (indexed l) = l /\
+  range_loop (fun log i _ => log ++ [i]) (length l) l 0 [] = Fin (seq 0 (length l)) /\
+  down_loop (fun log i _ => log ++ [i]) (length l) l [] = Fin (rev (seq 0 (length l))).
+Proof.
+  intros A St body l st.
+  split; [apply range_loop_spec|]. split; [apply down_loop_spec|].
+  split; [apply map_fst_combine_seq|]. split; [apply map_snd_combine_seq|].
+  split; [apply range_loop_indices | apply down_loop_indices].
+Qed.
+Print Assumptions C12_loop_forms.
+
+(* ===== Map, ForEach, ForEachRight, Reduce written with those loops and an
+   ARBITRARY stateful callback: the effect on the callback's state is that of
+   calling it once per element, in index (ForEachRight: reverse index) order ===== *)
+
+Theorem C12_iterators_any_callback :
+  forall A B St (l : list A) (s0 : St) (zero init : B)
+         (cb : St -> A -> St) (cbm : St -> A -> St * B) (cbr : St -> A -> B -> St * B),
+  for_each_cb cb l s0 = Fin (fold_left cb l s0) /\
+  for_each_right_cb cb l s0 = Fin (fold_left cb (rev l) s0) /\
+  map_cb cbm zero l s0 =
+    Fin (fold_left (fun st v => let (s', b) := cbm (fst st) v in (s', snd st ++ [b])) l (s0, [])) /\
+  reduce_cb cbr l s0 init = Fin (fold_left (fun st v => cbr (fst st) v (snd st)) l (s0, init)).
+Proof.
+  intros. split; [apply for_each_cb_spec|]. split; [apply for_each_right_cb_spec|].
+  split; [apply map_cb_spec | apply reduce_cb_spec].
+Qed.
+Print Assumptions C12_iterators_any_callback.
+
+(* … and with the LOGGING callbacks of the harness they are the log models of
+   C12_Model.v that the differential run compares with the real functions *)
+Theorem C12_iterators_logging_callback : forall A B (fn : A -> B) (op : A -> B -> B) (zero init : B) (l : list A),
+  for_each_cb (fun log v => log ++ [v]) l [] = Fin (for_each l) /\
+  for_each_right_cb (fun log v => log ++ [v]) l [] = Fin (for_each_right l) /\
+  map_cb (fun log v => (log ++ [v], fn v)) zero l [] = Fin (snd (map_go fn l), fst (map_go fn l)) /\
+  reduce_cb (fun log v acc => (log ++ [(v, acc)], op v acc)) l [] init =
+    Fin (snd (reduce_go op l init), fst (reduce_go op l init)).
+Proof.
+  intros A B fn op zero init l.
+  split; [apply for_each_cb_spec|]. split; [apply for_each_right_cb_spec|]. split.
+  - rewrite map_cb_spec, map_go_spec. cbn [fst snd]. f_equal. apply (map_step_log fn l [] []).
+  - rewrite reduce_cb_spec, reduce_go_spec. cbn [fst snd]. f_equal.
+    assert (G : forall l lg acc,
+      fold_left (fun (st : list (A * B) * B) v => (fst st ++ [(v, snd st)], op v (snd st))) l (lg, acc) =
+      (lg ++ reduce_log op l acc, fold_left (fun acc v => op v acc) l acc)).
+    { induction l0 as [|x l0 IH]; intros lg acc; cbn [fold_left reduce_log fst snd].
+      - now rewrite app_nil_r.
+      - rewrite IH. now rewrite <- app_assoc. }
+    apply (G l [] init).
+Qed.
+Print Assumptions C12_iterators_logging_callback.
+
+(* DropRightWhile with its own index arithmetic (i := len-1; i >= 0; i--) *)
+Theorem C12_drop_right_while_index_loop : forall A (p : A -> bool) (l : list A),
+  drop_right_while_idx p l = Fin (drop_right_while p l).
+Proof. intros. apply drop_right_while_idx_spec. Qed.
+Print Assumptions C12_drop_right_while_index_loop.
+
+(* ===== ReverseStr on the STRING: for every decoder/encoder pair ([]rune(str),
+   string(runes)) such that decoding only yields valid code points and
+   re-decoding an encoded valid sequence gives it back, reversing twice
+   re-encodes the decoded string; hence ReverseStr is an involution exactly on
+   the strings that decoding + encoding leaves unchanged (valid UTF-8) ===== *)
+
+Theorem C12_reverse_str_codec :
+  forall A B (dec : list B -> list A) (enc : list A -> list B) (valid : A -> Prop),
+  (forall rs, Forall valid rs -> dec (enc rs) = rs) ->
+  (forall s, Forall valid (dec s)) ->
+  forall s,
+    reverse_str_via dec enc s = Fin (enc (rev (dec s))) /\
+    (exists r, reverse_str_via dec enc s = Fin r /\ reverse_str_via dec enc r = Fin (enc (dec s))) /\
+    ((exists r, reverse_str_via dec enc s = Fin r /\ reverse_str_via dec enc r = Fin s) <-> enc (dec s) = s).
+Proof.
+  intros A B dec enc valid H1 H2 s.
+  split; [now apply (reverse_str_via_spec dec enc)|].
+  destruct (reverse_str_via_twice dec enc valid H1 H2 s) as (r & Hr & Hrr).
+  split; [now exists r|]. split.
+  - intros (r' & Hr' & Hrr'). rewrite Hr in Hr'. injection Hr' as <-. rewrite Hrr in Hrr'. now injection Hrr'.
+  - intros E. exists r. split; [exact Hr|]. now rewrite Hrr, E.
+Qed.
+Print Assumptions C12_reverse_str_codec.
+
+(* non-vacuity of the codec hypotheses: a decoder that replaces every invalid
+   unit by a replacement value (as Go's does with U+FFFD); the invalid string
+   [7] is NOT restored, the valid one is *)
+Example C12_reverse_str_codec_example :
+  let valid := fun x => 0 <= x < 5 in
+  let dec := map (fun b => if (0 <=? b) && (b <? 5) then b else 4) in
+  let enc := fun rs : list Z => rs in
+  (forall rs, Forall valid rs -> dec (enc rs) = rs) /\ (forall s, Forall valid (dec s)) /\
+  reverse_str_via dec enc [1; 7; 2] = Fin [2; 4; 1] /\ reverse_str_via dec enc [2; 4; 1] = Fin [1; 4; 2] /\
+  reverse_str_via dec enc [1; 3; 2] = Fin [2; 3; 1] /\ reverse_str_via dec enc [2; 3; 1] = Fin [1; 3; 2].
+Proof.
+  cbv zeta. split; [|split; [|repeat split; reflexivity]].
+  - induction 1 as [|x rs Hx _ IH]; [reflexivity|]. cbn [map]. rewrite IH.
+    replace ((0 <=? x) && (x <? 5)) with true; [reflexivity|].
+    symmetry. apply andb_true_iff. split; [apply Z.leb_le | apply Z.ltb_lt]; lia.
+  - induction s as [|b s IH]; constructor; [|exact IH].
+    destruct ((0 <=? b) && (b <? 5)) eqn:E; [|lia].
+    apply andb_true_iff in E as [E1 E2]. apply Z.leb_le in E1. apply Z.ltb_lt in E2. lia.
+Qed.
+
+(* ===== the model agrees with the reference definitions the property checker
+         [c12_holds] (C12_Wire.v) judges observations against ===== *)
+
+Theorem C12_model_is_reference :
+  forall A K (kd : dec_eq K) (zero : A) (p : A -> bool) (fn : A -> K) B (op : A -> B -> B) (init : B)
+         (l : list A) (ps m : list (list A)) (n : nest A) (size : Z),
+  (size <= max_int64 -> 2 * Z.of_nat (length l) <= max_int64 -> chunk l size = chunk_spec_ref l size) /\
+  partition_go p l = (filter p l, filter (fun x => negb (p x)) l) /\
+  filter_go p l = filter p l /\
+  reject p l = Fin (filter (fun x => negb (p x)) l) /\
+  drop_while p l = filter (fun x => negb (p x)) l /\
+  drop_right_while p l = rev (filter (fun x => negb (p x)) l) /\
+  group_by kd fn l = Ok (group_by_ref kd fn l) /\
+  zip zero m = transpose_ref zero m /\ unzip zero m = transpose_ref zero m /\
+  match zip zero m with Ok r => unzip zero r | Err k => Err k | Panic => Panic end = round_trip_ref m /\
+  match unzip zero m with Ok r => zip zero r | Err k => Err k | Panic => Panic end = round_trip_ref m /\
+  flatten n = flatten_ref n /\
+  merge l ps = concat (l :: ps) /\
+  (Z.of_nat (length l) <= max_int64 -> drop l size = Ok (drop_ref l size)) /\
+  reverse l = Fin (rev l) /\ reverse_str l = Fin (rev l) /\
+  map_go fn l = (map fn l, l) /\ for_each l = l /\ for_each_right l = rev l /\
+  reduce_go op l init = (fold_left (fun acc v => op v acc) l init, reduce_log op l init).
+Proof.
+  intros. split; [apply chunk_is_ref|]. split; [apply partition_go_spec|]. split; [apply filter_go_spec|].
+  split; [apply reject_spec|]. split; [apply drop_while_spec|].
+  split; [rewrite drop_right_while_spec; apply filter_rev|].
+  split; [apply group_by_spec|]. split; [apply zip_is_ref|]. split; [apply zip_is_ref|].
+  split; [apply round_trip_is_ref|]. split; [apply round_trip_is_ref|].
+  split; [apply flatten_spec|]. split; [apply merge_spec|]. split; [apply drop_is_ref|].
+  split; [apply reverse_spec|]. split; [apply reverse_spec|]. split; [apply map_go_spec|].
+  split; [apply for_each_spec|]. split; [apply for_each_right_spec | apply reduce_go_spec].
+Qed.
+Print Assumptions C12_model_is_reference.
+
+(* boundary cases named in the audit *)
+Example C12_boundary_examples :
+  chunk (@nil Z) 3 = Ok [] /\ chunk [1; 2; 3] 3 = Ok [[1; 2; 3]] /\ chunk [1; 2; 3; 4] 3 = Ok [[1; 2; 3]; [4]] /\
+  (* interleaved keys: every group keeps the order of s *)
+  group_by Z.eq_dec (fun x => Z.rem x 2) [1; 2; 3; 4; 5; 6; 1] = Ok [(1, [1; 3; 5; 1]); (0, [2; 4; 6])] /\
+  (* non-square shapes: rows of equal length but not as many as rows; ragged; one long row *)
+  zip 0 [[1; 2; 3]; [4; 5; 6]] = Panic /\ unzip 0 [[1; 2]; [3; 4; 5]] = Panic /\ zip 0 [[1; 2]; [3]] = Panic /\
+  zip 0 [[]] = Panic /\ zip (A := Z) 0 [] = Ok [] /\ unzip 0 [[7]] = Ok [[7]] /\
+  drop [1; 2; 3] 0 = Ok [1; 2; 3] /\ drop [1; 2; 3] (-3) = Ok [] /\ drop (@nil Z) 1 = Ok [] /\
+  (* extreme arguments: one chunk however large the size; Drop at the ends of the int range *)
+  chunk [1; 2; 3] max_int64 = Ok [[1; 2; 3]] /\ chunk (@nil Z) max_int64 = Ok [] /\ chunk [1; 2] min_int64 = Panic /\
+  chunk_spec_ref [1; 2; 3] max_int64 = Ok [[1; 2; 3]] /\
+  drop [1; 2; 3] max_int64 = Ok [] /\ drop [1; 2; 3] (min_int64 + 1) = Ok [] /\ drop [1; 2; 3] min_int64 = Ok [] /\
+  drop (@nil Z) min_int64 = Ok [] /\ drop_unrepaired (@nil Z) min_int64 = Panic /\ drop [1; 2; 3] 4294967297 = Ok [] /\
+  range_loop (fun log i v => log ++ [(i, v)]) 3 [7; 8; 9] 0 [] = Fin [(0%nat, 7); (1%nat, 8); (2%nat, 9)] /\
+  down_loop (fun log i v => log ++ [(i, v)]) 3 [7; 8; 9] [] = Fin [(2%nat, 9); (1%nat, 8); (0%nat, 7)].
+Proof. repeat split; reflexivity. Qed.
